@@ -347,6 +347,29 @@ def resource_catalogue():
         one("optional_nest_mismatch_x%d" % n_, "x: int" + "?" * n_ + " = nil\ny: str" + "?" * n_ + " = x\n")
         one("maptype_nest_mismatch_x%d" % min(n_, 60), "x: " + "map[int, " * min(n_, 60) + "int" + "]" * min(n_, 60) + " = " + "map[int, " * min(n_, 60) + "str" + "]" * min(n_, 60) + " { }\n")
         one("list_return_mismatch_x%d" % n_, "f = fn() -> " + "[" * n_ + "int" + "...]" * n_ + " {\n  return " + "[" * n_ + '"x"' + "]" * n_ + "\n}\n")
+    # nested types built FLAT, one alias / constant per level (the bracket-nesting guard does not see them), with
+    # the mismatch at the bottom: fixed-shape lists, open lists, optionals, maps, function types (area round a5-4)
+    for n_ in (30, 60):
+        for kind_, ty_, val_ in (("fixed", "[T%d, int]", "[v%d, 1]"), ("fixed_first_int", "[int, T%d]", "[1, v%d]"),
+                                 ("open", "[T%d...]", "[v%d]"), ("map", "map[int, T%d]", "map[int, T%d] { }"),
+                                 ("fixed_vs_open", "[T%d, int]", "[v%d, 1]")):
+            lines_ = ["type T1 [int, int]" if kind_ != "fixed_vs_open" else "type T1 [int...]", 'const v1 = ["s", 1]']
+            for k_ in range(2, n_ + 1):
+                lines_.append("type T%d %s" % (k_, ty_ % (k_ - 1)))
+                if kind_ == "map":
+                    lines_.append("const v%d: %s = %s" % (k_, "map[int, " * (k_ - 1) + "[str, int]" + "]" * (k_ - 1), "map[int, " + "map[int, " * (k_ - 2) + "[str, int]" + "]" * (k_ - 2) + "] { }"))
+                else:
+                    lines_.append("const v%d = %s" % (k_, val_ % (k_ - 1)))
+            lines_.append("const x: T%d = v%d" % (n_, n_))
+            if kind_ != "map" or n_ <= 30:
+                one("flat_alias_nest_mismatch_%s_x%d" % (kind_, n_), "\n".join(lines_) + "\n")
+    # the crash clause has no size bound: 200 kB of nesting after a string the guard's scanner must delimit like the
+    # grammar does (area round a6-1), and plain 200 kB nests
+    for tn_, lit_ in (("none", '"a"'), ("backslash_backslash_quote", '"a\\\\" + "'), ("escaped_quote", '"a\\"b" + "'),
+                      ("escaped_quote_then_backslashes", '"\\"\\\\" + "'), ("backslash_n_quote", '"\\n" + "\\\\" + "')):
+        for bn_, open_, close_ in (("paren", "(", ")"), ("list", "[", "]")):
+            one("large_%s_nest_100k_after_string_%s" % (bn_, tn_), "x = " + lit_ + ' + "z"\ny = ' + open_ * 100000 + "1" + close_ * 100000 + "\n")
+        one("large_block_nest_60k_after_string_%s" % tn_, "x = " + lit_ + ' + "z"\n' + "if true {" * 60000 + "}" * 60000 + "\n")
     # string literals the scanner of the nesting guard and the grammar must delimit identically
     for tn_, lit_ in (("backslash_backslash_quote", '"\\\\" + "'), ("escaped_quote", '"a\\"b" + "'), ("hash_in_string", '"#" + "'),
                       ("triple_hash_in_string", '"###" + "'), ("backslash_n", '"\\n" + "'), ("lone_backslash_end", '"a\\\\"')):
